@@ -1153,6 +1153,8 @@ def _drop(ctx, f, e, side):
         v = try_const(ctx, f, e.args[0])
         if isinstance(v, str) and ((side == "end" and e.func.attr == "removesuffix") or (side == "start" and e.func.attr == "removeprefix")):
             return len(v)
+        if isinstance(v, str) and ((side == "end" and e.func.attr in ("rstrip", "strip")) or (side == "start" and e.func.attr in ("lstrip", "strip"))):
+            return f"every trailing/leading character in {v!r}"      # a run of any length, not a fixed count
     return None
 
 
